@@ -486,10 +486,14 @@ package xy
 //@   floats real
 //@   requires calc.stride >= 2 && calc.stride == strideOf(calc.layout) && whole(len(calc.inputPts), calc.stride)
 //@   ensures len(calc.inputPts) == 0 <==> tag(res) == 0
+//@   ensures [one-point] len(calc.inputPts) == calc.stride ==> istype(res, ptr_geom.Point)
+//@   ensures [two-points] len(calc.inputPts) == 2 * calc.stride ==> (calc.inputPts[0] == calc.inputPts[calc.stride] && calc.inputPts[1] == calc.inputPts[calc.stride+1] ? istype(res, ptr_geom.Point) : istype(res, ptr_geom.LineString))
 //@   modifies nothing
 
 //@ func ConvexHullFlat
 //@   floats real
 //@   requires strideOf(layout) >= 2 && whole(len(coords), strideOf(layout))
 //@   ensures len(coords) == 0 <==> tag(res) == 0
+//@   ensures [one-point] len(coords) == strideOf(layout) ==> istype(res, ptr_geom.Point)
+//@   ensures [two-points] len(coords) == 2 * strideOf(layout) ==> (coords[0] == coords[strideOf(layout)] && coords[1] == coords[strideOf(layout)+1] ? istype(res, ptr_geom.Point) : istype(res, ptr_geom.LineString))
 //@   modifies nothing
